@@ -7,11 +7,20 @@ os.chdir(os.path.dirname(os.path.dirname(os.path.abspath(__file__))))
 tier = sys.argv[1] if len(sys.argv) > 1 else "quick"
 names = sys.argv[2:] or sorted(os.path.basename(os.path.dirname(p)) for p in glob.glob("seeded/*/meta.json"))
 EXTRA = {"C04-1": ["C14"], "C09-3": ["C14"], "C09-4": ["C06"], "C20-6": ["C07"], "C10-6": ["C14"], "C08-6": ["C06"], "C17-5": ["C13", "C18"], "C18-4": ["C13"], "C18-6": ["C13"],
-         "C01-8": ["C03"], "C08-7": ["C06"], "C10-8": ["C12"], "C15-7": ["C14"], "C04-8": ["C14"], "C09-7": ["C07"]}   # changes whose mechanism lies in another property's code
+         "C01-8": ["C03"], "C08-7": ["C06"], "C10-8": ["C12"], "C15-7": ["C14"], "C04-8": ["C14"], "C09-7": ["C07"],
+         "C01-10": ["C03"], "C10-9": ["C12"], "C10-10": ["C12"]}   # changes whose mechanism lies in another property's code
 rows = []
 for n in names:
     meta = json.load(open("seeded/%s/meta.json" % n))
     checks = [meta["property"]] + EXTRA.get(n, [])
+    only = os.environ.get("SEEDSWEEP_ONLY", "")   # "own": the property's check; "extra": the checks that own the mechanism
+    if only == "own":
+        checks = checks[:1]
+    elif only == "extra":
+        checks = checks[1:]
+        if not checks:
+            continue
+    prev = {r["check"]: r for r in meta.get("check", {}).get("results", [])} if only else {}
     results = []
     for cid in checks:
         p = subprocess.run(["tools/seedtest.sh", "seeded/%s/patch.diff" % n, cid, tier], capture_output=True, text=True)
@@ -20,6 +29,10 @@ for n in names:
         summ = re.findall(r"^%s %s: .*$" % (cid, tier), out, re.M)
         results.append(dict(check=cid, tier=tier, exit=p.returncode, detected=(p.returncode == 1), signatures=sigs[:6], summary=summ[-1] if summ else ""))
         print(n, cid, "exit", p.returncode, sigs[:3], flush=True)
+    if only:
+        for r in results:
+            prev[r["check"]] = r
+        results = [prev[k] for k in ([meta["property"]] + EXTRA.get(n, [])) if k in prev]
     meta["check"] = dict(command="tools/seedtest.sh seeded/%s/patch.diff <ID> %s" % (n, tier), results=results,
                          detected="yes" if any(r["detected"] for r in results) else "no")
     json.dump(meta, open("seeded/%s/meta.json" % n, "w"), indent=1)
